@@ -25,6 +25,8 @@ cdef int _check_shape_inner(Data left, Data right) except -1 nogil:
     if (
         (left.shape[0] != 1 and left.shape[1] != 1)
         or right.shape[1] != 1
+        # One of the dimensions of `left` is 1: the product is its length.
+        or left.shape[0] * left.shape[1] != right.shape[0]
     ):
         raise ValueError(
             "incompatible matrix shapes "
